@@ -6,13 +6,35 @@ import json, os, sys
 HERE = os.path.dirname(os.path.dirname(os.path.abspath(__file__)))
 
 # property id -> (technique, level text, level note, design ref)
+TRUST = "Trusted: rustc + std, the harness' reference models (kept boring: Vec, u128 arithmetic, textbook formulas), the hand-made Raw/Part models (a coder only ever sees (left cumulative, probability), so they present every well-formed model at the listed precisions). Coverage is exhaustive for the instantiations, alphabets and depths named in the evidence and nothing beyond; wider types are explored shallower and rely on the source being width-parametric."
+
 TEXT = {
  "C01": ("exhaustive history DFS + all-states single-step sweep of the real AnsCoder vs a Vec reference stack",
-         "Every operation history over {encode(letter), decode(matching model)} up to the stated depth, from the empty coder and from imported word strings, is executed on the real AnsCoder for (u8,u16),(u8,u32) (deep) and the rest of the type matrix (shallower); plus a single-step induction over ALL 2^16 head values of AnsCoder<u8,u16>. A bounded-exhaustive coverage statement for the listed instantiations, which is the right level for an arithmetic state machine whose rare events (flush/refill thresholds) become frequent at 8-bit words.",
-         "Trusted: rustc, the harness' Vec reference stack; width-parametric source assumed to behave alike at wider types beyond the explored depth.", "§3 C01"),
+         "Every operation history over {encode(letter), decode(matching model)} up to the stated depth, from the empty coder and from 50+ imported word strings, executed on the real AnsCoder for the whole (Word,State) matrix (deep on 8-bit words); re-import, clone and batch/reverse/fallible forms compared at every node; plus a single-step induction (decode(encode(s)) = s and encode(decode(s)) = s) over ALL 2^16 head values of AnsCoder<u8,u16>. Bounded-exhaustive coverage is the right level for an arithmetic state machine whose rare events (flush/refill thresholds) become frequent at 8-bit words.", TRUST, "§3 C01"),
  "C02": ("exhaustive symbol-sequence DFS on the real RangeEncoder/RangeDecoder, every node sealed and decoded",
-         "All symbol sequences over mixed-precision alphabets up to the stated depth on 8-bit words with 16/32/64-bit state (where carries and inverted situations occur within depth 6) and shallower on the wide types; at every node the stream is sealed and fully decoded, clear() is compared with new(). Event counters prove inverted situations, both carry resolutions and two-word seals were explored.",
-         "Trusted: rustc; Raw/Part hand-made models present the coder with arbitrary well-formed (cumulative, probability) pairs.", "§3 C02"),
+         "All symbol sequences over mixed-precision alphabets up to the stated depth on 8-bit words with 16/32/64-bit state (where carries and inverted situations occur within depth 6) and shallower on wide types; at every node the stream is sealed and fully decoded through two decoder constructions, clear() is compared with new(). Event counters prove inverted situations, both carry resolutions and two-word seals were explored; a run without them exits 2.", TRUST, "§3 C02"),
+ "C04": ("exhaustive input sweep: all word strings x all model sequences on the real AnsCoder, both raw-binary accessors",
+         "Every u8 word string of length <= 2 (thorough: 3) and longer strings over boundary words, for 7 (Word,State) instantiations; from_binary, decode with every model sequence over 15 models up to length 3-4, re-encode in reverse, compare into_binary AND get_binary AND num_valid_bits AND the raw coder state with the original.", TRUST, "§3 C04"),
+ "C06": ("differential exhaustive walk: real coders vs independent textbook rANS / carry-propagating range coder at every node; documentation vectors",
+         "At every node of the ANS history walk and the range-coder sequence walk the words the implementation would export equal those of an independent reference written from the published algorithms and notes/range-coding.md; 14 byte-exact vectors from README/lib.rs/stream docs/test_docexamples.py are replayed.", TRUST + " The Python front end itself cannot be built offline; its Rust entry points are exercised.", "§3 C06"),
+ "C07": ("exhaustive snapshot/seek-pair enumeration over 5 decoder kinds per coder on every message of the walk",
+         "For every message up to the stated depth: pos() at every symbol boundary (also while words are held back), all ordered seek pairs with a decode in between, decode to the end/bottom, over owned/borrowed/consuming/reversed/temporary decoders; positions beyond the data must be refused and leave the decoder usable.", TRUST, "§3 C07"),
+ "C08": ("twin execution at every node of the walks + explicit-state BFS of the bit-level coders",
+         "8 inspection operations x {once, twice} on a clone at every node of the range and ANS walks (incl. inverted situation, empty coder, raw-binary loads, states with interior zero words); view == what finishing would return, full raw state unchanged, continued encoding identical to the untouched twin. Bit coders: observational oracle inside the C16 BFS.", TRUST, "§3 C08"),
+ "C11": ("exhaustive symbol-sequence DFS; every node decoded under a family of appended suffixes and as first of two back-to-back messages",
+         "At every node of the range-coder walk (S = 2W, 4W, 8W) the sealed words are decoded with 8 adversarial suffixes of S/W+2 words and with a second message appended via with_backend; alphabets are iterated by size so that the rare multi-zero-word seals are reached (counter required non-zero).", TRUST, "§3 C11"),
+ "C12": ("analytic bound and its inductive step evaluated at every node/edge of the exhaustive walks",
+         "The global size bound (num_valid_bits / num_bits / words) AND the per-step inequality of its proof (potential growth <= info + rounding term) are checked on every node and edge of the encode-only ANS walk and the range walk for all 7 instantiations, incl. precisions with zero headroom.", TRUST + " Bounds evaluated in f64 with 1e-6 bit tolerance.", "§3 C12"),
+ "C13": ("exhaustive input sweep on the real ChainCoder: all word strings x all model sequences x 3 continuations; 8 precision schedules",
+         "Every u8 string of length <= 2 (and longer strings over boundary words) x every model sequence of length 2-4 on 9 (Word,State,PRECISION) instantiations, from_binary and from_compressed, each followed by the three documented ways of re-importing remainders, re-encoding and reassembling; precision schedules P1->P2->P1 undone in reverse; documented errors are accepted, wrong reconstructions never.", TRUST, "§3 C13"),
+ "C14": ("exhaustive input sweep with an independent bit-buffer reference + differential single-bit-flip / model-replacement oracle",
+         "For every data string and model sequence: symbol i equals what model i assigns to chunk i as located by an independent 20-line reference of the bit buffer; every single-bit flip and every model replacement changes at most the owning position and never the out-of-data index.", TRUST, "§3 C14"),
+ "C15": ("exhaustive enumeration of weight vectors; brute-force optimality oracle; reference Huffman with (weight,index) ties",
+         "All weight vectors of length <= 6-10 over small weight alphabets as u32/f64/f32, plus special vectors; prefix-freeness, Kraft equality, optimal cost (brute force over all full binary trees for n <= 6), exact tie-breaking, prefix == reversed suffix, decode, rejection of out-of-alphabet symbols, encoder/decoder agreement.", TRUST, "§3 C15"),
+ "C16": ("explicit-state BFS of the real StackCoder to a fixed point; exhaustive bit strings on the queue coder; exhaustive Exp-Golomb values",
+         "All reachable states of StackCoder<u8/u16/u32> with up to 13-18 content bits under {write 0/1, read, export->re-import, inspect}, canonical key = full Debug representation + reference content, until the frontier empties; every bit string through QueueEncoder/QueueDecoder; every u8 pair and u16 value (boundary values of u32/u64) through Exp-Golomb on both coders; symbol codes interleaved with raw bits.", TRUST, "§3 C16"),
+ "C17": ("explicit-state BFS over (buffer, position) with full dedup to a fixed point on 4 cursor kinds; exhaustive op sequences on Vec/SmallVec",
+         "Every reachable (buffer contents, position) state with buffer length <= 5 (thorough 7): each op executed on Cursor<Vec>, Cursor<&mut [W]>, Cursor<&[W]>, Reverse<Cursor> and the reference; reported remaining/space_left compared with the number of operations that actually succeed; fused end; into_reversed as a bisimulation; views/clones; Vec/SmallVec/iterator/callback adapters.", TRUST, "§3 C17"),
 }
 
 CLAIMED = []  # filled below as modules land
